@@ -42,6 +42,10 @@ CHECKS = {
   "runtime monitor: scripted programs vs exact offset model with goroutine-state inspection (up to 3 simultaneous waiters); concurrent histories recorded at the API boundary and checked for linearizability with porcupine; interval oracle for ring-crossing writes; Go race detector",
   "Seeded programs of Write/ReadAt/WaitAt/DataRange/NewReader/SeekTo/IsValid/Reader.Read/Close run against the model {wpos, capacity, closed} with position-coded content, offsets aimed at both validity edges (wpos-cap-1..+1, wpos..+1), totals up to dozens of laps; waiting and wake-up of every parked reader are read from goroutine states. 150/1500 concurrent histories (1 writer, 2-4 readers) are checked with porcupine v1.3.0 (60 s timeout => inconclusive); ring-crossing writes under an interval oracle; any -race report in backlog code is a violation.",
   "Trusted: the offset model (30 lines) and porcupine. DataRange after Close is not asserted (statement is silent).", "DESIGN.md §5/C18"),
+ "C14": ("exploration",
+  "reference-model monitor over a loopback model target: generated checkpoint states -> real checkpoint.LoadCheckpoint -> return values and keyspace afterwards compared with a reference 'newest own checkpoint' function",
+  "800/16000 target states written the way the incremental sender writes them, for up to 4 sources whose addresses are prefixes of one another (10.0.0.1:6379/63790, h:1/h:10, an address containing 'offset'), spread over databases {0,1,5,15} with partial, cleared, old-version and newer-version checkpoints and data keys; each state is loaded 5 times (map iteration order) over TCP; returned run id/offset/database/error and every hash field afterwards (stale own fields gone, other sources and the chosen checkpoint intact, data untouched) are compared with the reference. Writer/reader agreement is additionally exercised end to end by C04's restarts.",
+  "Trusted: the 30-line reference and lib/miniredis (INFO keyspace, HGETALL, HDEL). Equal offsets in two databases are not generated.", "DESIGN.md §5/C14"),
  "C15": ("exploration",
   "reference-model monitor: spec-derived slot function and bitwise CRC16 run against every enumerated/random key; result re-hashing for chosen checkpoint keys",
   "Every string over {'{','}',a,b} up to length 8 (quick) / 10 (thorough) plus 60k/600k random binary keys go through KeyToSlot and are compared with a slot function typed from the Cluster specification; all three CRC16 copies are compared with a bitwise CRC16/XMODEM; every ChoseSlotInRange / findKeyInRange result is re-hashed by the reference and must land in range and be excluded by FilterKey (thorough: all 16384 singleton ranges). Exhaustive to the stated bound, sampled beyond it.",
